@@ -20,13 +20,16 @@ pub fn build_pred(spec: &str) -> (Option<AbsModel>, Result<Predictor, String>) {
         return (None, Err("bad".into()));
     }
     let (pt, st, ser) = (f[0] == '1', f[1] == '1', f.get(2) == Some(&'s'));
+    let trail: Vec<u8> = if ser { crate::util::unhex(&flags[3.min(flags.len())..]).unwrap_or_default() } else { vec![] };
     let r = catch(|| {
         let model = m.load().map_err(|e| format!("read:{e}"))?;
         let mut p = Predictor::new(model, pt).map_err(|_| "err:invalid_model".to_string())?;
         if ser {
             let bytes = p.serialize_to_vec().map_err(|_| "err:serialize".to_string())?;
+            let mut bytes = bytes;
+            bytes.extend_from_slice(&trail);
             let (q, rest) = unsafe { Predictor::deserialize_from_slice_unchecked(&bytes) }.map_err(|_| "err:deserialize".to_string())?;
-            if !rest.is_empty() {
+            if rest != &trail[..] {
                 return Err("err:rest".to_string());
             }
             p = q;
@@ -62,6 +65,9 @@ pub fn run_h(cfg: &str, preds: &str, ops: &str, oracle: &str, fails: &mut Vec<(S
         }
     }
     if !errs.is_empty() {
+        if oracle == "c14" && errs.iter().any(|e| e.contains("err:rest") || e.contains("err:deserialize")) {
+            fails.push(("C14".into(), format!("deserialising a serialised predictor failed or returned the wrong remainder: {}", errs.join(","))));
+        }
         return errs.join(",");
     }
     crate::sent::run_hist(&built, &models, &flags, ops, oracle, fails)
@@ -143,5 +149,21 @@ pub fn oracle_c06(s: &Sentence, m: &AbsModel, fails: &mut Vec<(String, String)>)
         Ok(Ok(())) => {}
         Ok(Err(e)) => fails.push(("C06".into(), e)),
         Err(e) => fails.push(("C06".into(), format!("panic: {e}"))),
+    }
+}
+
+/// `E <hex bytes> <bias> <ntags> <tp>`: real deserialisation of real bytes; reports the remainder length
+pub fn run_e(toks: &[&str], fails: &mut Vec<(String, String)>) -> String {
+    let ["E", h, bias, ntags, tp, trail_len, ..] = toks else { return "bad-case".into() };
+    let Some(bytes) = crate::util::unhex(h) else { return "bad-case".into() };
+    match catch(|| unsafe { Predictor::deserialize_from_slice_unchecked(&bytes) }.map(|(_, rest)| rest.len())) {
+        Ok(Ok(n)) => {
+            if toks.last() == Some(&"c14") && n.to_string() != *trail_len {
+                fails.push(("C14".into(), format!("deserialize returned a remainder of {n} bytes, {trail_len} bytes followed the predictor")));
+            }
+            format!("ok rest={n} bias={bias} ntags={ntags} tp={tp} reencode=same")
+        }
+        Ok(Err(_)) => "err:decode".into(),
+        Err(_) => "panic".into(),
     }
 }
